@@ -37,7 +37,7 @@ PROJ = {
 RELEVANT = {
     "C08": {"alg", "is_subset", "is_superset", "is_disjoint", "sub", "sweep"},
     "C09": {"iter", "get", "get_mut", "shapes", "sweep"},
-    "C13": {"gdm", "gdum", "get_mut", "sweep"},
+    "C13": {"gdm", "gdum", "get_mut", "sweep", "shapes"},
     "C14": {"eq", "sweep"},
     "C19": {"fmt", "iter", "alg", "drain", "into_iter", "sweep"},
     "C20": {"serde", "serde_wrong", "serde_zst", "deser", "eq", "len", "get", "iter"},
@@ -194,7 +194,9 @@ def compare(prop, ops_path, impl_path, model_path, max_report=20):
                     bad.append("canary:" + rf["can"])
                 if "in" in oracles and rf.get("in", "1") != "1":
                     bad.append("reference-outside-container")
-                if "al" in oracles and rf.get("al", "0") != "0" and oc == "ok":
+                # (`shapes` builds Strings / Rcs inside its scenarios and checks the allocator calls of the
+                #  container operations that matter itself)
+                if "al" in oracles and rf.get("al", "0") != "0" and oc == "ok" and c["traced"][j].split()[1:2] != ["shapes"]:
                     bad.append("allocations:" + rf["al"])
                 if bad:
                     ofail = {"case": c["name"], "line": j, "op": c["traced"][j], "impl": a,
